@@ -206,6 +206,8 @@ def arm_summary(arm_body, regvars):
         for g, pol in guards:
             if re.match(r"^let Some\(\w+\)=\w+$", g):
                 continue  # `if let Some(v) = &reg` : knowledge exists
+            if pol and re.match(r"^!remove_(second|both)$", g.replace(" ", "").replace("(", "").replace(")", "")):
+                continue  # only while the instruction stays: one that is deleted has no effect to record
             conds.append((g, pol))
         if not conds:
             c = "always"
